@@ -274,17 +274,19 @@ Definition rkey (v : rval) : key :=
 
 Record realm := mkRealm { r_range : bool; r_ty : N; r_vals : list (key * (rval * bytes)) }.
 
+Definition realm_step (ty : N) (acc : option (list (key * (rval * bytes)))) (e : enumval)
+  : option (list (key * (rval * bytes))) :=
+  match acc, rval_of ty (ev_enum e) with
+  | Some m, Some v =>
+      Some (sm_ins (rkey v) (v, match ev_desc e with [] => ev_enum e | d => d end) m)
+  | _, _ => None
+  end.
+
 Definition realm_of (f : fspec) : option (option realm) :=
   match fs_vals f with
   | [] => Some None
   | vs =>
-    let step (acc : option (list (key * (rval * bytes)))) (e : enumval) :=
-        match acc, rval_of (fs_ty f) (ev_enum e) with
-        | Some m, Some v =>
-            Some (sm_ins (rkey v) (v, match ev_desc e with [] => ev_enum e | d => d end) m)
-        | _, _ => None
-        end in
-    match fold_left step vs (Some []) with
+    match fold_left (realm_step (fs_ty f)) vs (Some []) with
     | Some m => Some (Some (mkRealm (existsb ev_range vs) (fs_ty f) m))
     | None => None
     end
@@ -315,20 +317,21 @@ Record xschema := mkX {
   x_trailer : list ritem;
   x_msgs : list (msgdef * list ritem) }.
 
+Definition schema_lk (s : schema) : bytes -> option (N * N) :=
+  lookup_name (load_fields (s_fields s)) (fton (load_fields (s_fields s))).
+
+Definition expand_level (quirk : bool) (s : schema) (its : list item) : option (list ritem) :=
+  expand (schema_lk s) (load_comps (s_comps s)) FUEL quirk true [] its.
+
+Definition expand_msgs (quirk : bool) (s : schema) : option (list (msgdef * list ritem)) :=
+  fold_right (fun m acc => match acc, expand_level quirk s (md_items m) with
+                           | Some l, Some r => Some ((m, r) :: l)
+                           | _, _ => None end) (Some []) (s_msgs s).
+
 Definition expand_schema (quirk : bool) (s : schema) : option xschema :=
-  let fm := load_fields (s_fields s) in
-  let ft := fton fm in
-  let cs := load_comps (s_comps s) in
-  let ex q its := expand (lookup_name fm ft) cs FUEL q true [] its in
-  match ex false (s_header s), ex false (s_trailer s) with
-  | Some h, Some t =>
-    match fold_right (fun m acc => match acc, ex quirk (md_items m) with
-                                   | Some l, Some r => Some ((m, r) :: l)
-                                   | _, _ => None end) (Some []) (s_msgs s) with
-    | Some ms => Some (mkX fm cs h t ms)
-    | None => None
-    end
-  | _, _ => None
+  match expand_level false s (s_header s), expand_level false s (s_trailer s), expand_msgs quirk s with
+  | Some h, Some t, Some ms => Some (mkX (load_fields (s_fields s)) (load_comps (s_comps s)) h t ms)
+  | _, _, _ => None
   end.
 
 Definition used_nums (x : xschema) : list N :=
@@ -344,23 +347,28 @@ Definition version_of (s : schema) : option N :=
   | _, _, _ => None
   end.
 
+Definition ftab_step (used : list N) (acc : option (list (key * ftab_entry))) (kv : key * fspec)
+  : option (list (key * ftab_entry)) :=
+  let f := snd kv in
+  if existsb (N.eqb (fs_num f)) used then
+    match acc, realm_of f with
+    | Some l, Some r => Some (l ++ [(fst kv, mkFe (fs_num f) (fs_name f) (cls_of_ty (fs_ty f)) r)])
+    | _, _ => None
+    end
+  else acc.
+
+Definition mtab_init : list (key * mtab_entry) :=
+  sm_ins TRAILER (mkMe TRAILER TRAILER false) (sm_ins HEADER (mkMe HEADER HEADER false) []).
+
+Definition mtab_of (x : xschema) : list (key * mtab_entry) :=
+  fold_left (fun m (mr : msgdef * list ritem) =>
+               sm_ins (md_type (fst mr)) (mkMe (md_type (fst mr)) (md_name (fst mr)) (md_admin (fst mr))) m)
+            (x_msgs x) mtab_init.
+
 Definition tables_of (s : schema) (x : xschema) : option tables :=
-  let used := used_nums x in
-  let step (acc : option (list (key * ftab_entry))) (kv : key * fspec) :=
-      let f := snd kv in
-      if existsb (N.eqb (fs_num f)) used then
-        match acc, realm_of f with
-        | Some l, Some r => Some (l ++ [(fst kv, mkFe (fs_num f) (fs_name f) (cls_of_ty (fs_ty f)) r)])
-        | _, _ => None
-        end
-      else acc in
-  match version_of s, fold_left step (x_fm x) (Some []) with
+  match version_of s, fold_left (ftab_step (used_nums x)) (x_fm x) (Some []) with
   | Some v, Some ft =>
-    let mt := fold_left (fun m mr => sm_ins (md_type (fst mr))
-                                            (mkMe (md_type (fst mr)) (md_name (fst mr)) (md_admin (fst mr))) m)
-                        (x_msgs x)
-                        (sm_ins TRAILER (mkMe TRAILER TRAILER false) (sm_ins HEADER (mkMe HEADER HEADER false) [])) in
-    Some (mkTables v (s_type s ++ [46] ++ s_major s ++ [46] ++ s_minor s) ft mt (sm_keys (x_comps x)))
+    Some (mkTables v (s_type s ++ [46] ++ s_major s ++ [46] ++ s_minor s) ft (mtab_of x) (sm_keys (x_comps x)))
   | _, _ => None
   end.
 
@@ -370,9 +378,10 @@ Record meta := mkMeta { mt_tables : tables; mt_nodes : list (key * mnode) }.
 Definition nodes_of (node : list ritem -> option mnode) (x : xschema) : option (list (key * mnode)) :=
   match node (x_header x), node (x_trailer x) with
   | Some h, Some t =>
-    fold_left (fun acc mr => match acc, node (snd mr) with
-                             | Some m, Some n => Some (sm_ins (md_type (fst mr)) n m)
-                             | _, _ => None end)
+    fold_left (fun acc (mr : msgdef * list ritem) =>
+                 match acc, node (snd mr) with
+                 | Some m, Some n => Some (sm_ins (md_type (fst mr)) n m)
+                 | _, _ => None end)
               (x_msgs x) (Some (sm_ins TRAILER t (sm_ins HEADER h [])))
   | _, _ => None
   end.
@@ -403,7 +412,7 @@ Definition level_ok (its : list ritem) : bool :=
   negb (match its with [] => true | _ => false end)
   && nodup_keys (map (fun y => [item_num y]) its) && forallb ritems_ok its.
 
-Definition has_num (n : N) (its : list ritem) : bool := existsb (fun y => item_num y =? n) its.
+Definition has_num (n : N) (its : list ritem) : bool := existsb (fun y => negb (is_group y) && (item_num y =? n)) its.
 
 Definition ident_ok (b : bytes) : bool :=
   match b with
